@@ -10,6 +10,9 @@ import (
 // NewState creates the mutator state for one history over records of root's type.
 // root is a pointer to a record struct (e.g. reflect.ValueOf(&writer.Record)).
 func NewState(cfg *Cfg, root reflect.Value, open func([]byte, int) reflect.Value) *State {
+	// the negative-zero defects (negzero-setter, negzero-clone, CopyFromSlice) are repaired in
+	// /repo: nothing is avoided any more, a regression must be reported
+	cfg.AllowNegZero = true
 	st := &State{Cfg: cfg, Pool: map[string][]*ObjSpec{}, Stats: map[string]int{}}
 	st.Env = NewEnv(root.Type().Elem(), &st.AltCalls, open)
 	return st
@@ -17,6 +20,7 @@ func NewState(cfg *Cfg, root reflect.Value, open func([]byte, int) reflect.Value
 
 // ReplayState creates a state for replaying recorded calls of a history generated with gen.
 func ReplayState(cfg *Cfg, gen *State) *State {
+	cfg.AllowNegZero = true
 	st := &State{Cfg: cfg, Stats: map[string]int{}}
 	st.Env = NewEnv(gen.Env.RootType, &gen.AltCalls, gen.Env.OpenReader)
 	return st
@@ -76,6 +80,10 @@ func (g *gen) do(nav []NavStep, c *Call) bool {
 			g.scratch = &State{Cfg: g.st.Cfg, Env: g.st.Env, unguarded: true}
 		}
 		status = g.scratch.Exec(g.root, c)
+		if len(g.scratch.SetterDrops) > 0 {
+			g.st.SetterDrops = append(g.st.SetterDrops, g.scratch.SetterDrops...)
+			g.scratch.SetterDrops = nil
+		}
 		if status == ExecPanic {
 			g.st.LastPanic = g.scratch.LastPanic
 		}
@@ -493,6 +501,23 @@ func (g *gen) mutArray(v reflect.Value, t *Type, nav []NavStep, depth int, stack
 			if g.do(nav, &Call{M: "Append", Args: []any{g.genPrim(et, cur)}, Tag: 'L', Ty: t}) {
 				g.lenStat(n, n+1)
 			}
+		case x < 7 && has(v, "CopyFromSlice") && et.Kind == KFloat64 && n > 0 && g.r.Chance(1, 3):
+			// the same values with the sign of the zeros flipped (a zero is planted when there is
+			// none): equal under ==, different bit patterns
+			out := make([]float64, n)
+			zeros := 0
+			for i := range out {
+				out[i] = call(v, "At", iv(i))[0].Float()
+				if out[i] == 0 {
+					out[i] = math.Float64frombits(math.Float64bits(out[i]) ^ (1 << 63))
+					zeros++
+				}
+			}
+			if zeros == 0 {
+				out[g.r.Intn(n)] = math.Copysign(0, -1)
+			}
+			g.stat("float-slice-zero-sign-flip")
+			g.do(nav, &Call{M: "CopyFromSlice", Args: []any{out}, Tag: 'L', Ty: t})
 		case x < 7 && has(v, "CopyFromSlice"):
 			nl := n
 			if g.r.Chance(1, 2) {
@@ -804,7 +829,7 @@ func (g *gen) genF64(cur float64) float64 {
 
 func (g *gen) genF64raw(cur float64) float64 {
 	r := g.r
-	if g.st.Cfg.AllowNegZero && cur == 0 && r.Chance(2, 3) {
+	if g.st.Cfg.AllowNegZero && cur == 0 && ((g.st.Cfg.NegZeroHeavy && r.Chance(2, 3)) || r.Chance(1, 8)) {
 		g.stat("float-flip-zero-sign")
 		return math.Float64frombits(math.Float64bits(cur) ^ (1 << 63))
 	}
